@@ -100,29 +100,28 @@ Theorem c18_etag_alphabet_safe : forallb safe_char (la etag_alphabet ++ [pad_cha
 Proof. exact etag_alphabet_safe. Qed.
 Print Assumptions c18_etag_alphabet_safe.
 
-(* c18_cache_path, full statement: for every cache root and every URL whose
-   path is absolute (what the callers produce), provided the printed repository
-   URL contains a '/', the cache path is at or below the root:
-       is_abs root -> is_abs path -> In sl ustr ->
-       cache_path_from_url root ustr path = Some p -> under root p.
-   Proved here as _partial with the hypothesis [is_abs path] replaced by what the
-   proof uses of it: the arch-directory name base(dir(path)) is not "..".  (dir
-   returns a cleaned path, so its base never is "..": that lemma about
-   base-after-render is the missing part; the correspondence stage checks
-   [underb root p] on every observed output with an absolute or empty path.)
-   The path may BE the root: finding C18-F4, refuted form below. *)
-Theorem c18_cache_path_partial : forall root ustr path p,
-  is_abs root = true -> In sl ustr -> is_dd (base (dir path)) = false ->
+(* For every cache root and every URL whose path is absolute (what the callers
+   produce), provided the printed repository URL contains a '/' (it ends with
+   the absolute path Dir(Dir(u.Path))), the cache path is at or below the root.
+   It may BE the root: finding C18-F4, refuted form below. *)
+Theorem c18_cache_path : forall root ustr path p,
+  is_abs root = true -> is_abs path = true -> In sl ustr ->
   cache_path_from_url root ustr path = Some p ->
   under root p.
-Proof. exact cache_path_under_root_partial. Qed.
-Print Assumptions c18_cache_path_partial.
+Proof. exact cache_path_under_root. Qed.
+Print Assumptions c18_cache_path.
+
+(* filepath.Base of a cleaned absolute path is "/" or a proper component, never ".." *)
+Theorem c18_base_of_clean : forall x, is_abs x = true ->
+  base (clean x) = [sl] \/ proper (base (clean x)).
+Proof. exact base_clean_abs. Qed.
+Print Assumptions c18_base_of_clean.
 
 Example c18_cache_path_ex :
   cache_path_from_url (la "/t/cache") (la "https://h/repo") (la "/repo/x86_64/../../../a.apk")
     = Some (la "/t/cache/https%3A%2F%2Fh%2Frepo/a.apk") /\
-  is_dd (base (dir (la "/repo/x86_64/../../../a.apk"))) = false.
-Proof. split; vm_compute; reflexivity. Qed.
+  In sl (la "https://h/repo").
+Proof. split; [vm_compute; reflexivity | vm_compute; auto 10]. Qed.
 
 Theorem c18_cache_path_is_root_refuted :
   exists root ustr path e p,
